@@ -6,7 +6,7 @@ var props = map[string]*propCfg{
 	"C18": {
 		ID: "C18", Level: "exploration", QuickSecs: 45, ThoroughSecs: 600, HangIsVerdict: true,
 		Lanes: []lane{{Variant: "", Share: 10}, {Variant: "multi", Share: 4}, {Variant: "multi", Race: true, Share: 2}},
-		Rule: "one evaluation = one seeded needs graph (1-8 jobs; seven shapes: sparse, dense, DAG, ring with chords, tail into a cycle, two clusters, top-down with self loops; duplicate entries, mixed-case ids, dangling references, disjoint cycles, cycles sharing nodes; random definition and needs order; lane 'multi': 2-4 such graphs as the files of one LintFiles call under a seeded schedule, also on the -race build) linted once by the real rule under a seeded iteration order of the rule's node map, its resolve loop and the job visiting order; distinct = distinct (workflow text, installed map-order modes); non-trivial = the graph has >= 2 jobs and at least one instrumented map-range site iterated >= 2 keys in a non-identity order",
+		Rule:  "one evaluation = one seeded needs graph (1-8 jobs; seven shapes: sparse, dense, DAG, ring with chords, tail into a cycle, two clusters, top-down with self loops; duplicate entries, mixed-case ids, dangling references, disjoint cycles, cycles sharing nodes; random definition and needs order; lane 'multi': 2-4 such graphs as the files of one LintFiles call under a seeded schedule, also on the -race build) linted once by the real rule under a seeded iteration order of the rule's node map, its resolve loop and the job visiting order; distinct = distinct (workflow text, installed map-order modes); non-trivial = the graph has >= 2 jobs and at least one instrumented map-range site iterated >= 2 keys in a non-identity order",
 		Assumptions: []string{
 			"reference model: lower-cased vertex ids, de-duplicated resolved edges, DFS colouring for 'has a cycle'; graphs with case-insensitively duplicate job ids are not generated (the property does not say which definition wins)",
 			"cycle reporting is only checked when every reference resolves (the property specifies it for that case only); a dangling reference written k times may be reported between 1 and k times",
@@ -16,7 +16,7 @@ var props = map[string]*propCfg{
 	"C09": {
 		ID: "C09", Level: "exploration", QuickSecs: 60, ThoroughSecs: 900,
 		Lanes: []lane{{Variant: "", Share: 1}},
-		Rule: "one evaluation = one workflow composed from 2-6 independently chosen job groups (each closed under needs; half mined as job blocks from /repo/testdata/{examples,ok,err} with yaml.v3, half from the hand-written fragment library incl. well-formed local actions and reusable workflows) in a random textual interleaving, linted once under a seeded iteration order at every instrumented map-range site (in particular the job visiting order), plus the canonical solo run of each group as reference, plus (half of the evaluations) a step-insertion check on one job; distinct = distinct (composed text, installed map-order modes); non-trivial = >= 2 jobs and at least one map-range site iterated >= 2 keys in a non-identity order",
+		Rule:  "one evaluation = one workflow composed from 2-6 independently chosen job groups (each closed under needs; half mined as job blocks from /repo/testdata/{examples,ok,err} with yaml.v3, half from the hand-written fragment library incl. well-formed local actions and reusable workflows) in a random textual interleaving, linted once under a seeded iteration order at every instrumented map-range site (in particular the job visiting order), plus the canonical solo run of each group as reference, plus (half of the evaluations) a step-insertion check on one job; distinct = distinct (composed text, installed map-order modes); non-trivial = >= 2 jobs and at least one map-range site iterated >= 2 keys in a non-identity order",
 		Assumptions: []string{
 			"reference model: the job group linted alone with the same header and the jobs it needs (canonical schedule); diagnostics are compared per job as multisets of (relative line, column, kind, message) with positions echoed in messages shifted by the same offset",
 			"job groups never reference defective or missing local actions / reusable workflows: 'callee defects are reported once per run' (C10) is specified behaviour that necessarily lands on whichever job is visited first",
@@ -27,7 +27,7 @@ var props = map[string]*propCfg{
 	"C02": {
 		ID: "C02", Level: "exploration", QuickSecs: 75, ThoroughSecs: 1200,
 		Lanes: []lane{{Variant: "", Share: 10}, {Variant: "single", Share: 4}, {Variant: "", Race: true, Share: 2}},
-		Rule: "one evaluation = one generated world (1-2 virtual repositories with configs, 1-3 workflows each composed from the fragment library biased to tie-makers - two or more diagnostics at one position, several candidates for 'the first' - plus corpus workflows/projects, defective callees, called workflows that are arguments themselves, files outside any repository; argument subset/order, cwd, path spelling, NumCPU, output mode) executed twice by the real Linter: the canonical run (identity map order, non-preemptive, zero latency) and a run under seeded map-iteration orders at every instrumented site, a seeded goroutine schedule and, per evaluation, another NumCPU, another GOMAXPROCS (1..64, also above NumCPU), a second execution in the same process or a second call on the same Linter instance; a race lane runs the same worlds on the -race build; 64 (thorough: 192) late evaluations are re-executed in fresh processes (fresh-versus-warm); distinct = distinct (world hash, interleaving signature = hash of the ordered kernel event trace, installed map modes, variant kind); non-trivial = at some scheduling point >= 2 tasks were runnable, or a map-range site iterated >= 2 keys in a non-identity order, or the CPU/repeat variant was used",
+		Rule:  "one evaluation = one generated world (1-2 virtual repositories with configs, 1-3 workflows each composed from the fragment library biased to tie-makers - two or more diagnostics at one position, several candidates for 'the first' - plus corpus workflows/projects, defective callees, called workflows that are arguments themselves, files outside any repository; argument subset/order, cwd, path spelling, NumCPU, output mode) executed twice by the real Linter: the canonical run (identity map order, non-preemptive, zero latency) and a run under seeded map-iteration orders at every instrumented site, a seeded goroutine schedule and, per evaluation, another NumCPU, another GOMAXPROCS (1..64, also above NumCPU), a second execution in the same process or a second call on the same Linter instance; a race lane runs the same worlds on the -race build; 64 (thorough: 192) late evaluations are re-executed in fresh processes (fresh-versus-warm); distinct = distinct (world hash, interleaving signature = hash of the ordered kernel event trace, installed map modes, variant kind); non-trivial = at some scheduling point >= 2 tasks were runnable, or a map-range site iterated >= 2 keys in a non-identity order, or the CPU/repeat variant was used",
 		Assumptions: []string{
 			"oracle is purely differential (stdout bytes, exit status, every field of every []*Error, fatal or not); fatal error texts on stderr are not compared (the first of several concurrent fatal errors is legitimately schedule-dependent)",
 			"runs that crash are left to C01; C02 compares runs that complete",
@@ -36,7 +36,7 @@ var props = map[string]*propCfg{
 	"C10": {
 		ID: "C10", Level: "exploration", QuickSecs: 90, ThoroughSecs: 1500,
 		Lanes: []lane{{Variant: "", Share: 5}, {Variant: "defective", Share: 4}, {Variant: "faults", Share: 2}, {Variant: "cache", Share: 2}, {Variant: "", Race: true, Share: 2}, {Variant: "defective", Race: true, Share: 1}},
-		Rule: "one evaluation = one generated world of 1-3 virtual repositories (siblings sharing a name prefix, a nested repository, files outside any repository; per-repository actionlint.yaml with different runner labels, config variables and paths-ignore entries; local actions and reusable workflows, some of them arguments themselves; corpus workflows) (some workflow files are symbolic links into another directory or repository; a repository root that differs from another only in letter case) linted once as a multi-file run - in a fifth of the evaluations as the second call on one Linter instance - under a seeded goroutine schedule, seeded map orders and NumCPU in {1,2,3,4,8,16}, plus one canonical solo run per argument as reference, plus the attribution run; lane 'defective' adds defective/missing callees, lane 'faults' persistent read errors, lane 'cache' runs 2-4 simulated client tasks against the two caches and checks the recorded history with porcupine; race lanes run the same worlds on the -race build with the invisible baton; distinct = distinct (world hash, interleaving signature = hash of the ordered kernel event trace); non-trivial = at some scheduling point >= 2 tasks were runnable",
+		Rule:  "one evaluation = one generated world of 1-3 virtual repositories (siblings sharing a name prefix, a nested repository, files outside any repository; per-repository actionlint.yaml with different runner labels, config variables and paths-ignore entries; local actions and reusable workflows, some of them arguments themselves; corpus workflows) (some workflow files are symbolic links into another directory or repository; a repository root that differs from another only in letter case) linted once as a multi-file run - in a fifth of the evaluations as the second call on one Linter instance - under a seeded goroutine schedule, seeded map orders and NumCPU in {1,2,3,4,8,16}, plus one canonical solo run per argument as reference, plus the attribution run; lane 'defective' adds defective/missing callees, lane 'faults' persistent read errors, lane 'cache' runs 2-4 simulated client tasks against the two caches and checks the recorded history with porcupine; race lanes run the same worlds on the -race build with the invisible baton; distinct = distinct (world hash, interleaving signature = hash of the ordered kernel event trace); non-trivial = at some scheduling point >= 2 tasks were runnable",
 		Assumptions: []string{
 			"reference for isolation: the same file linted alone by a fresh Linter on the canonical schedule (same disk, cwd and spelling); compared as ordered lists",
 			"reference for attribution: nearest ancestor directory with a .github/workflows directory and a .git entry, checked through the public Projects API for every argument order",
@@ -49,7 +49,7 @@ var props = map[string]*propCfg{
 	"C15": {
 		ID: "C15", Level: "exploration", QuickSecs: 60, ThoroughSecs: 900,
 		Lanes: []lane{{Variant: "", Share: 7}, {Variant: "", Race: true, Share: 1}},
-		Rule: "one evaluation = one virtual repository (at /w/app, nested at /w/app/vendor/sub with or without an enclosing repository, or at /x/y/z/r; optional sibling sharing the name prefix) with 1-3 generated workflows, an actionlint.yaml with 0-3 paths entries (globs that match none/some/all files, and globs that only match when the path is wrongly taken relative to another directory) x 1-3 ignore regexps, 0-2 -ignore flags; executed through Command.Main twice: U = unfiltered from the repository root, F = filtered from a chosen cwd (root, parent, .github, .github/workflows, /, unrelated), spelling (relative, ./, absolute, with ..), mode (files, single file, no argument, failing getwd, stdin with -stdin-filename, repository config unreadable), output mode (json template, -oneline), under a seeded schedule; some workflow files are symbolic links to files outside the repository; a second repository with its own config can be part of the invocation; a race lane runs the same worlds on the -race build; distinct = distinct world hash (disk, cwd, arguments); non-trivial = U has diagnostics and (a filter removes something, or the cwd is not the root, or the spelling is not plain relative)",
+		Rule:  "one evaluation = one virtual repository (at /w/app, nested at /w/app/vendor/sub with or without an enclosing repository, or at /x/y/z/r; optional sibling sharing the name prefix) with 1-3 generated workflows, an actionlint.yaml with 0-3 paths entries (globs that match none/some/all files, and globs that only match when the path is wrongly taken relative to another directory) x 1-3 ignore regexps, 0-2 -ignore flags; executed through Command.Main twice: U = unfiltered from the repository root, F = filtered from a chosen cwd (root, parent, .github, .github/workflows, /, unrelated), spelling (relative, ./, absolute, with ..), mode (files, single file, no argument, failing getwd, stdin with -stdin-filename, repository config unreadable), output mode (json template, -oneline), under a seeded schedule; some workflow files are symbolic links to files outside the repository; a second repository with its own config can be part of the invocation; a race lane runs the same worlds on the -race build; distinct = distinct world hash (disk, cwd, arguments); non-trivial = U has diagnostics and (a filter removes something, or the cwd is not the root, or the spelling is not plain relative)",
 		Assumptions: []string{
 			"reference model: expected(F) = U minus diagnostics whose message matches a -ignore pattern or a pattern of a paths entry whose glob (doublestar) matches the file path relative to the root of the containing repository; exit 1 iff non-empty, 0 iff empty",
 			"U is obtained from the same code with no -ignore flag and the paths section removed from the config: the oracle decides filtering and cwd/spelling independence, not what the unfiltered diagnostics are",
@@ -59,7 +59,7 @@ var props = map[string]*propCfg{
 	"C20": {
 		ID: "C20", Level: "exploration", QuickSecs: 75, ThoroughSecs: 1200,
 		Lanes: []lane{{Variant: "", Share: 6}, {Variant: "faults", Share: 6}, {Variant: "", Race: true, Share: 2}, {Variant: "faults", Race: true, Share: 2}},
-		Rule: "one evaluation = 1-6 generated workflow files x 1-3 jobs x 1-4 steps with shells chosen at step / job default / workflow default / runner default (windows labels) / none, custom shells, scripts with 0-3 placeholders (adjacent, at start/end, unterminated, '}}' inside a string, multi-line) and issue markers, both / one / no tool enabled or not installed, the tool given as an executable name or as a command line with arguments, NumCPU in {1,2,3,4,16} and GOMAXPROCS equal to or 2-3 times NumCPU; linted once by the real Linter with the real process.go protocol against simulated shellcheck/pyflakes whose latency (0, 1 ms, 10 ms, 1 s, 1 h of simulated time) and completion order are seeded choices; lane 'faults' additionally makes 1-2 invocations fail (cannot start: ENOENT/EACCES/EAGAIN, killed, killed after partial output, non-zero without output, exits before reading stdin, shellcheck prints non-JSON, shellcheck exits 0 printing nothing); distinct = distinct (world hash, interleaving signature = hash of the ordered kernel event trace incl. process start/exit events); non-trivial = >= 2 expected tool invocations and >= 2 tasks runnable at some scheduling point",
+		Rule:  "one evaluation = 1-6 generated workflow files x 1-3 jobs x 1-4 steps with shells chosen at step / job default / workflow default / runner default (windows labels) / none, custom shells, scripts with 0-3 placeholders (adjacent, at start/end, unterminated, '}}' inside a string, multi-line) and issue markers, both / one / no tool enabled or not installed, the tool given as an executable name or as a command line with arguments, NumCPU in {1,2,3,4,16} and GOMAXPROCS equal to or 2-3 times NumCPU; linted once by the real Linter with the real process.go protocol against simulated shellcheck/pyflakes whose latency (0, 1 ms, 10 ms, 1 s, 1 h of simulated time) and completion order are seeded choices; lane 'faults' additionally makes 1-2 invocations fail (cannot start: ENOENT/EACCES/EAGAIN, killed, killed after partial output, non-zero without output, exits before reading stdin, shellcheck prints non-JSON, shellcheck exits 0 printing nothing); distinct = distinct (world hash, interleaving signature = hash of the ordered kernel event trace incl. process start/exit events); non-trivial = >= 2 expected tool invocations and >= 2 tasks runnable at some scheduling point",
 		Assumptions: []string{
 			"the dialect given to shellcheck (--shell) must be the effective shell of the step; the whole diagnostics list must equal the canonical run's (zero latency, non-preemptive)",
 			"reference model from the YAML via yaml.v3: effective shell = step shell > job defaults.run.shell > workflow defaults.run.shell > pwsh when a literal runs-on label is windows or windows-* > bash; shellcheck iff bash/sh or 'bash '/'sh ' prefix; pyflakes iff python or 'python ' prefix (no runner default); stdin = setup line + script with each ${{ ... }} replaced by as many underscores (an unterminated ${{ and the rest left as is) + newline for shellcheck, the sanitised script for pyflakes",
@@ -72,7 +72,7 @@ var props = map[string]*propCfg{
 	"C01": {
 		ID: "C01", Level: "fault_enumeration", QuickSecs: 60, ThoroughSecs: 1200, HangIsVerdict: true,
 		Lanes: []lane{{Variant: "", Share: 5}, {Variant: "tornenum", Share: 2}, {Variant: "", Race: true, Share: 1}},
-		Rule: "lane 'tornenum': one evaluation = one generated single-repository world and one of its channel files (workflow, action metadata, reusable workflow, actionlint.yaml) read back truncated at EVERY byte offset (thorough tier; every 16th offset from a seeded phase in the quick tier), one canonical run per offset. Other lanes: one evaluation = one generated world (1-2 virtual repositories from the fragment library, the repository's testdata workflows and testdata projects, incl. defective callees and files outside any repository) run through Command.Main in one of the entry modes (files, no argument = directory walk, stdin, -config-file) under a seeded schedule with 0-3 planned faults: content faults on a channel file (torn at an offset, zeroed range, duplicated block, swapped blocks, 1-8 flipped bits, rewritten between two reads; on the first, second or every read), read errors (EIO, EACCES, ENOENT, EISDIR), a fault on the n-th I/O operation whatever its path, stat / getwd / directory-listing errors, stdin read error at an offset and short reads; a third of the worlds have the shellcheck/pyflakes integrations enabled with working or broken installations (every invocation exits non-zero without output, cannot be started, is killed, prints garbage or nothing); distinct = distinct (world hash incl. fault plan, interleaving signature); non-trivial = at least one planned fault actually fired",
+		Rule:  "lane 'tornenum': one evaluation = one generated single-repository world and one of its channel files (workflow, action metadata, reusable workflow, actionlint.yaml) read back truncated at EVERY byte offset (thorough tier; every 16th offset from a seeded phase in the quick tier), one canonical run per offset. Other lanes: one evaluation = one generated world (1-2 virtual repositories from the fragment library, the repository's testdata workflows and testdata projects, incl. defective callees and files outside any repository) run through Command.Main in one of the entry modes (files, no argument = directory walk, stdin, -config-file) under a seeded schedule with 0-3 planned faults: content faults on a channel file (torn at an offset, zeroed range, duplicated block, swapped blocks, 1-8 flipped bits, rewritten between two reads; on the first, second or every read), read errors (EIO, EACCES, ENOENT, EISDIR), a fault on the n-th I/O operation whatever its path, stat / getwd / directory-listing errors, stdin read error at an offset and short reads; a third of the worlds have the shellcheck/pyflakes integrations enabled with working or broken installations (every invocation exits non-zero without output, cannot be started, is killed, prints garbage or nothing); distinct = distinct (world hash incl. fault plan, interleaving signature); non-trivial = at least one planned fault actually fired",
 		Assumptions: []string{
 			"SCOPE: this check decides only the part of C01 that faults reach. The property also quantifies over all byte strings on each input channel; that is input fuzzing, a different technique, and is not decided here: a tree can pass this check and still panic on a crafted input",
 			"oracle: no panic in any task, no deadlock, termination within the step budget and the wall-clock watchdog (a hang is re-run alone for 60 s before it is reported), exit status in {0,1,3}, no panic text in the output; exit status 3 with a message is demanded only when a persistent read error makes an argument workflow file or the -config-file file unreadable, the workflows directory cannot be listed, or stdin fails",
